@@ -56,8 +56,8 @@ ObsBucketOK(x, s) ==
 
 ObsOK(obs, s) == \A i \in 1..Len(obs.buckets) : ObsBucketOK(obs.buckets[i], s)
 
-Explains(e, out) == /\ RespOK(e, out.resp)
-                    /\ IF "same" \in DOMAIN e.obs THEN out.st.buckets = st.buckets ELSE ObsOK(e.obs, out.st)
+StateOK(e, out) == IF "same" \in DOMAIN e.obs THEN out.st.buckets = st.buckets ELSE ObsOK(e.obs, out.st)
+Explains(e, out) == RespOK(e, out.resp) /\ StateOK(e, out)
 
 Init == st = InitSt /\ l = 1 /\ dead = FALSE
 
@@ -72,8 +72,12 @@ Next ==
      ELSE LET outs == Step(st, e)
               good == {o \in outs : Explains(e, o)}
           IN IF good # {} THEN st' = (CHOOSE o \in good : TRUE).st /\ UNCHANGED dead
-             ELSE /\ Reject(e, IF \E o \in outs : RespOK(e, o.resp) THEN "obs" ELSE "resp")
-                  /\ dead' = TRUE /\ UNCHANGED st
+             ELSE \* unexplained: report it. When only the reply is wrong (some allowed outcome has exactly the
+                  \* state the read-back shows) the rest of the trace is still checked, from that state.
+                  LET resync == {o \in outs : StateOK(e, o)} IN
+                  /\ Reject(e, IF \E o \in outs : RespOK(e, o.resp) THEN "obs" ELSE "resp")
+                  /\ IF resync # {} THEN st' = (CHOOSE o \in resync : TRUE).st /\ UNCHANGED dead
+                                    ELSE dead' = TRUE /\ UNCHANGED st
 
 Spec == Init /\ [][Next]_vars
 InvGen == GenInv(st)
